@@ -23,7 +23,7 @@ func init() {
 		// the error mapping after the process ended (clauses 1, 2, 6, 7); the process execution is an oracle
 		{Pkg: pf, Type: "Request", Opaque: true, Views: map[string]string{"Command()": "string"}},
 		{Pkg: ".../plugin", Func: "commander.Output", Oracle: true},
-		{Pkg: ".../plugin", Func: "run"},
-		{Pkg: ".../plugin", Func: "(*CLIPlugin).GetMetadata"},
+		{Pkg: ".../plugin", Func: "run", NonNil: true, InstantiateAny: []string{"resp"}},
+		{Pkg: ".../plugin", Func: "(*CLIPlugin).GetMetadata", NonNil: true},
 	})
 }
